@@ -35,6 +35,7 @@ L.die = die     # rs2v_loops looks `die` up as a module global at call time: eve
 # new types:  "uniform"  the struct UniformInt<$ty> (Random.uniform: the record of its three fields, pattern-checked)
 #             "rng"      `&mut R`, R: Rng + ?Sized: the generator's remaining output (Random.stream), threaded
 #             ("borrow", T)  a generic `B: SampleBorrow<T> + Sized` parameter: `*b.borrow()` is the T it stands for
+#             "slice"    `Slice<$ty>` / `[$ty]`: a list of digit lists (the elements all have N digits)
 #             ("drawn", T)   what a function with an rng parameter returns: option (T * stream) (Model/ImpRand.v)
 _coq_ty0, _show0 = L.coq_ty, L.show
 
@@ -49,6 +50,8 @@ def coq_ty(t):
         return "Random.uniform"
     if t == "rng":
         return "Random.stream"
+    if t == "slice":
+        return "(list (list Z))"
     if is_tag(t, "borrow"):
         return coq_ty(t[1])
     if is_tag(t, "drawn"):
@@ -69,7 +72,7 @@ def show(t):
 L.coq_ty, L.show = coq_ty, show
 
 # names the generated code uses unqualified, Gallina keywords: not available as Rust local names
-L.RESERVED |= {"draw", "draw_in_loop", "of_rres", "of_outcome", "rbind", "rbind_loop", "rng_fill_digits", "drawn", "is_zero", "ucmp",
+L.RESERVED |= {"rng_fill_raw", "size_of_bnum", "map", "draw", "draw_in_loop", "of_rres", "of_outcome", "rbind", "rbind_loop", "rng_fill_digits", "drawn", "is_zero", "ucmp",
                "icmp", "cmp_lt", "cmp_le", "ONE", "ZERO", "UMAX", "repeat", "Done", "Panicked", "NoFuel", "Return", "Continue", "Break",
                "Exited", "Returned", "while_loop", "fst", "snd", "negb", "andb", "orb", "true", "false", "nil", "cons", "length",
                "at", "end", "fix", "fun", "forall", "exists", "then", "using", "where", "with", "mod", "Type", "Prop", "Set", "cofix"}
@@ -121,6 +124,28 @@ class RP(L.LP):
                 self.eat(")")
             self.eat(";")
             return ["assert", c]
+        if v is not None and L.IDENT.match(v) and self.peek(1) == "." and self.peek(2) == "try_fill_bytes" and self.peek(3) == "(":
+            # rng.try_fill_bytes(unsafe { core::slice::from_raw_parts_mut(self.0.as_mut_ptr() as *mut u8, <byte count>) })?;
+            # only this form: the raw byte view of the whole slice behind `self` (Model/ImpRand.v: rng_fill_raw); `?` is the token QMARK
+            rv = self.eat()
+            for x in [".", "try_fill_bytes", "(", "unsafe", "{", "core", "::", "slice", "::", "from_raw_parts_mut", "(", "self", ".", "0", ".",
+                      "as_mut_ptr", "(", ")", "as", "*", "mut", "u8", ","]:
+                self.eat(x)
+            e = self.expr()
+            if self.peek() == ",":
+                self.eat(",")
+            for x in [")", "}", ")", "QMARK", ";"]:
+                self.eat(x)
+            return ["rawfill", rv, e]
+        if v == "for":                                          # for x in &mut self.0 { *x = x.m(); }   (only this form)
+            self.eat("for")
+            x = self.ident()
+            for y in ["in", "&", "mut", "self", ".", "0", "{", "*", x, "=", x, "."]:
+                self.eat(y)
+            m = self.ident()
+            for y in ["(", ")", ";", "}"]:
+                self.eat(y)
+            return ["mapself", m]
         if v is not None and L.IDENT.match(v) and self.peek(1) == "." and self.peek(2) == "fill" and self.peek(3) == "(":
             rv = self.eat()                                     # `rng.fill(&mut digits);`
             self.eat("."), self.eat("fill"), self.eat("("), self.eat("&"), self.eat("mut")
@@ -139,6 +164,15 @@ class RP(L.LP):
             if self.peek() == "(":
                 return ["pcall", [ty, name], self.args()]
             return ["path", [ty, name]]
+        if v == "Ok" and [self.peek(k) for k in (1, 2, 3, 4)] == ["(", "(", ")", ")"]:
+            for _ in range(5):
+                self.eat()
+            return ["okunit"]
+        if v == "core" and [self.peek(k) for k in range(1, 12)] == ["::", "mem", "::", "size_of", "::", "<", self.peek(7), "<", "N", ">>", "("] \
+                and self.peek(7) in ("$BUint", "$BInt") and self.peek(12) == ")":
+            for _ in range(13):                                 # core::mem::size_of::<$BUint<N>>()
+                self.eat()
+            return ["sizeof"]
         if v == "UniformInt" and self.peek(1) == "{":           # struct literal: field shorthand or `field: expr`
             self.eat(), self.eat("{")
             fs = []
@@ -169,7 +203,7 @@ def mentions(node, name):
     if isinstance(node, (list, tuple)):
         if len(node) == 2 and node[0] == "var" and node[1] == name:
             return True
-        if len(node) == 3 and node[0] == "rngfill" and node[1] == name:
+        if len(node) == 3 and node[0] in ("rngfill", "rawfill") and node[1] == name:
             return True
         return any(mentions(x, name) for x in node)
     return False
@@ -249,6 +283,24 @@ class RG(L.Gen):
                 x = self.tmp()
                 return [self.draw(x, rv, "of_rres (%s w (Z.to_nat N) %s)" % (f, rv))], x, t
             self.die("unsupported method rng.%s" % e[2])
+        if k == "okunit":                                         # Ok(()) of a `&mut self` function: the updated *self is the result
+            if not (self.sigs[self.fname]["mutref"] and self.sigs[self.fname]["ret"] == "slice"):
+                self.die("Ok(()) outside a `&mut self` function returning Result<(), Error>")
+            return [], "self", "slice"
+        if k == "sizeof":                                         # size_of::<$BUint<N>>() = size_of::<$BInt<N>>() (Model/ImpRand.v)
+            return [], "(size_of_bnum w N)", "usize"
+        if k == "field" and e[2] == "0":                          # struct Slice<T>(pub [T]) (pattern-checked): `.0` is the slice itself
+            save = self.ntmp
+            p, v, t = self.ex(e[1], env)
+            if L.rs(t) == "slice":
+                return p, v, "slice"
+            self.ntmp = save
+        if k == "mcall" and e[2] == "len" and not e[3]:
+            save = self.ntmp
+            p, v, t = self.ex(e[1], env)
+            if L.rs(t) == "slice":
+                return p, "(Z.of_nat (length %s))" % v, "usize"
+            self.ntmp = save
         if k == "ustruct":
             want = {"low": self.xty, "range": self.xty, "z": self.xty}
             if sorted(f for f, _ in e[1]) != sorted(FIELDS):
@@ -303,6 +355,10 @@ class RG(L.Gen):
         pa, va, ta = self.ex(a, env)
         pb, vb, tb = self.ex(b, env)
         ka = L.rs(ta)
+        if op == "*" and L.is_int(ta) and L.is_int(tb):
+            t = L.unify(ta, tb, "operands of *")
+            if self.need(t, "operands of *") == "usize":         # `len * size_of::<T>()`: unbounded, like `+` on usize (Model/Imp.v)
+                return pa + pb, "(%s * %s)" % (va, vb), "usize"
         if ka in ("buint", "bint"):
             pre = pa + pb
             if op in ("<", "<="):            # PartialOrd via Ord::cmp (src/{buint,bint}/cmp.rs; ties: LoopsTieC06 cmp, GlueTieC06 I_cmp)
@@ -381,12 +437,14 @@ class RG(L.Gen):
 
     # ------------------------------------------------ statements
     def assigned(self, blk):
-        out = L.Gen.assigned(self, [s for s in blk if s[0] not in ("loop", "assert", "rngfill", "unreachable")])
+        out = L.Gen.assigned(self, [s for s in blk if s[0] not in ("loop", "assert", "rngfill", "unreachable", "rawfill", "mapself")])
         for s in blk:
             if s[0] == "loop":
                 out |= self.assigned(s[1])
             elif s[0] == "rngfill":
                 out.add(s[2])
+            elif s[0] in ("rawfill", "mapself"):
+                out.add("self")
         if self.rng is not None and mentions(blk, self.rng):
             out.add(self.rng)                   # every use of the generator consumes (re-binds) the stream
         return out
@@ -426,6 +484,18 @@ class RG(L.Gen):
             if x not in env or self.kind_of(env[x].ty) != "digits" or L.rs(env[x].ty) != "digits" or not env[x].mut:
                 self.die("rng.fill(&mut %s): only a `let mut` array [$Digit; N] is supported" % x)
             return pad + self.draw(x, rv, "rng_fill_digits w %s %s" % (x, rv)) + "\n" + self.stmts(rest, env, ctx, ind)
+        if k == "rawfill":
+            _, rv, e = s
+            if rv not in env or L.rs(env[rv].ty) != "rng" or "self" not in env or L.rs(env["self"].ty) != "slice" or not env["self"].mut:
+                self.die("`%s.try_fill_bytes(<raw bytes of self.0>)?`: only in a `&mut self` function of Slice<T> with the rng" % rv)
+            p, v, t = self.ex(e, env)
+            L.unify(t, "usize", "byte count of from_raw_parts_mut")
+            return self.lines(p + [self.draw("self", rv, "rng_fill_raw w N self %s %s" % (v, rv))], pad) + "\n" + self.stmts(rest, env, ctx, ind)
+        if k == "mapself":
+            f = {("buint", "to_le"): "Endian.U_to_le", ("bint", "to_le"): "Endian.I_to_le"}.get((self.xty, s[1]))
+            if f is None or "self" not in env or L.rs(env["self"].ty) != "slice" or not env["self"].mut:
+                self.die("`for x in &mut self.0 { *x = x.%s(); }`: only to_le on the elements of Slice<T> is supported" % s[1])
+            return pad + "let self := (map %s self) in\n" % f + self.stmts(rest, env, ctx, ind)
         if self.rng is not None and k in ("expr", "return") and s[1] is not None and s[1][0] not in ("ifx", "blockx", "match"):
             # the value of a function with an rng parameter: the value and what the generator has left
             if rest:
@@ -539,6 +609,7 @@ def global_checks(src):
     need(PATH, r"pub\s+struct\s+UniformInt\s*<\s*X\s*>\s*\{\s*low\s*:\s*X\s*,\s*range\s*:\s*X\s*,\s*z\s*:\s*X\s*,?\s*\}",
          "`struct UniformInt<X> { low: X, range: X, z: X }` (Random.mkUniform)", src)
     need(PATH, rx("crate::macro_impl!(random);"), "`crate::macro_impl!(random);`", src)
+    need(PATH, rx("#[repr(transparent)] pub struct Slice<T>(pub [T]);"), "`#[repr(transparent)] pub struct Slice<T>(pub [T]);`", src)
     need("src/buint/consts.rs", r"macro_rules!\s*pos_const\s*\{\s*\(\s*\$\(\s*\$name\s*:\s*ident\s+\$num\s*:\s*literal\s*\)\s*,\s*\*\s*\)\s*=>\s*\{\s*\$\(\s*"
          r"(#\[[^\]]*\]\s*)*pub\s+const\s+\$name\s*:\s*Self\s*=\s*Self\s*::\s*from_digit\s*\(\s*\$num\s*\)\s*;\s*\)\s*\*\s*\}",
          "macro pos_const (`pub const $name: Self = Self::from_digit($num);`)")
@@ -586,6 +657,10 @@ def parse_sig(coq, rust, generics, params, ret, xty, selfty):
         if first and peek() == "&" and peek(1) == "self":
             sig["self"] = True
             i += 2
+        elif first and peek() == "&" and peek(1) == "mut" and peek(2) == "self" and selfty == "slice":
+            sig["self"] = sig["mutref"] = True                 # the Gallina function returns the updated *self
+            sig["mut"].add("self")
+            i += 3
         else:
             pn = peek()
             if not L.IDENT.match(pn or "") or pn in L.KEYWORDS or peek(1) != ":":
@@ -618,6 +693,8 @@ def parse_sig(coq, rust, generics, params, ret, xty, selfty):
         sig["ret"] = "buint"
     elif r == "$BInt<N>":
         sig["ret"] = "bint"
+    elif r == "Result<(),Error>" and sig["mutref"]:
+        sig["ret"] = "slice"                                   # Ok(()) + the updated *self; Err(e) is the generator running dry (None)
     else:
         die("fn %s: unsupported return type %s" % (rust, ret.strip()))
     if rngty is not None and sig["rng"] is None:
@@ -628,13 +705,15 @@ def parse_sig(coq, rust, generics, params, ret, xty, selfty):
 def translate_one(tgt, fns, sigs, dsigs):
     coq = tgt["coq"]
     sig, body = sigs[coq], fns[coq]
-    ast = mk_parser(body, tgt["xty"]).block()
+    ast = mk_parser(body.replace("?", " QMARK "), tgt["xty"]).block()
     tvs, txt, g = {}, None, None
     for final in (False, True):
         g = RG(coq, sigs, dsigs, {}, tvs, final, tgt)
         env, ctx = {}, {"loop": None, "protected": set()}
         if sig["self"] and sig["selfty"] == "uniform":
             env["self"] = L.Var("uniform", False)
+        if sig["self"] and sig["selfty"] == "slice":
+            env["self"] = L.Var("slice", True)
         for pn, pt in sig["params"]:
             g.declare(env, pn, pt, pt == "rng", ctx)
         txt = g.stmts(ast, env, ctx, 1)
@@ -642,6 +721,7 @@ def translate_one(tgt, fns, sigs, dsigs):
         die("fn %s: recursion is not supported here" % tgt["fn"])
     sig["dbg"] = g.uses_dbg
     argl = " (self : Random.uniform)" if (sig["self"] and sig["selfty"] == "uniform") else ""
+    argl = " (self : list (list Z))" if (sig["self"] and sig["selfty"] == "slice") else argl
     argl += "".join(" (%s : %s)" % (n, coq_ty(t)) for n, t in sig["params"])
     rty = coq_ty(("drawn", sig["ret"]) if sig["rng"] else sig["ret"])
     head = "(* %s: %s, fn %s *)\n" % (tgt["path"], tgt["where"], tgt["fn"])
@@ -660,7 +740,7 @@ HEADER = ["(* GENERATED on every run by tools/rs2v_rand.py from /repo/src/random
           "   icmp / ONE / ZERO / UMAX, Cast.to_bits / from_bits, Convert.from_digits. *)",
           "From Bnum Require Import Base Prim.",
           "From Bnum.Model Require Import DigitPrims LoopPrims Core Imp ImpRand.",
-          "From Bnum.Model Require AddSub Mul Div Bits Shift Cast Convert Random.",
+          "From Bnum.Model Require AddSub Mul Div Bits Shift Cast Convert Endian Random.",
           "From Bnum.Generated Require Import DigitGen.", "", "Module RandGen.", ""]
 
 
@@ -707,7 +787,53 @@ def build_targets(src, failed):
             targets.append(t)
             if err:
                 failed[t["coq"]] = err
+    # ---- fill_impl!: head, single rule, the two invocations
+    fm = re.search(r"macro_rules!\s*fill_impl\s*\{\s*" + rx("($ty: ty)") + r"\s*=>", src)
+    if not fm:
+        die("%s: macro_rules! fill_impl with the parameter list ($ty: ty) not found" % PATH)
+    fbody, fend = braces(src, fm.end(), "macro_rules! fill_impl")
+    if not re.match(r"\s*;?\s*\}", src[fend:]):
+        die("%s: macro_rules! fill_impl has more than one rule" % PATH)
+    fuses = [norm(m.group(1)) for m in re.finditer(r"(?<![\w!$])fill_impl!\s*\(([^()]*)\)\s*;", src)]
+    finside = [m for m in re.finditer(r"(?<![\w!$])fill_impl!\s*\(([^()]*)\)\s*;", rbody)]
+    if sorted(fuses) != ["$BInt<N>", "$BUint<N>"] or len(finside) != 2:
+        die("%s: the invocations of fill_impl! are not exactly `($BUint<N>)` and `($BInt<N>)` inside macro random!" % PATH)
+    for prefix, tyname, xty in (("U_", "$BUint<N>", "buint"), ("I_", "$BInt<N>", "bint")):
+        if "$(" in fbody or re.search(r"\$(?!ty\b)\w+", fbody):
+            die("%s: fill_impl!: a metavariable other than $ty / a repetition" % PATH)
+        text = re.sub(r"\$ty\b", lambda m: tyname, fbody)
+        targets.append(dict(coq=prefix + "try_fill", group="C20", path=PATH, where="fill_impl!(%s)" % tyname, fn="try_fill", text=text,
+                            anchor=rx("impl<const N: usize> Fill for crate::random::Slice<%s>" % tyname), xty=xty, selfty="slice",
+                            prefix=prefix, names={}))
     return targets
+
+
+def fill_slice_wrappers(src, sigs, failed):
+    """`pub fn try_fill_slice<T, ..>(slice: &mut [T], rng)`: its text is checked token by token (the `&mut [T]` is re-read as `&mut Slice<T>`,
+    a repr(transparent) wrapper: the same list; then `Fill::try_fill`, i.e. the impl of fill_impl! at T); emitted at T = $BUint<N>, $BInt<N>"""
+    out = []
+    try:
+        generics, params, ret, body = L.find_fn(src, None, "try_fill_slice", PATH)
+        got = (norm(generics or ""), norm(params), norm(ret or ""), norm(body))
+        want = ("<T,R:Rng+?Sized>", "slice:&mut[T],rng:&mutR", "Result<(),Error>whereSlice<T>:Fill,",
+                "{letslice=unsafe{&mut*(sliceas*mut_as*mutSlice<T>)};Fill::try_fill(slice,rng)}")
+        if got != want:
+            die("%s: fn try_fill_slice is not the expected two-line wrapper around Fill::try_fill" % PATH)
+        err = None
+    except SystemExit:
+        err = LAST_MSG[0]
+    for prefix, ty in (("U_", "$BUint<N>"), ("I_", "$BInt<N>")):
+        coq = prefix + "try_fill_slice"
+        tgt = dict(coq=coq, path=PATH, where="T = %s" % ty, fn="try_fill_slice")
+        why = err or (None if prefix + "try_fill" in sigs else "it calls %stry_fill, which is not translated" % prefix)
+        if why:
+            failed[coq] = why
+            out.append(stub(tgt, why))
+        else:
+            out.append("(* %s: fn try_fill_slice at T = %s (text pattern-checked: `&mut [T]` re-read as `&mut Slice<T>`, then Fill::try_fill) *)\n"
+                       "Definition %s (w N : Z) (fuel : nat) (slice : list (list Z)) (rng : Random.stream) : res (drawn (list (list Z))) :=\n"
+                       "  draw slice rng <- %stry_fill w N fuel slice rng ;;\n  Done (Some (slice, rng)).\n" % (PATH, ty, coq, prefix))
+    return out
 
 
 WPATH = "src/buint/bigint_helpers.rs"
@@ -739,7 +865,8 @@ def stub(tgt, why):
         tgt["path"], tgt["where"], tgt["fn"], why.replace("*)", "* )").replace("(*", "( *"), tgt["coq"])
 
 
-ALL = ["widening_mul", "U_standard", "I_standard"] + [p + UNIFORM_FNS[f] for p, _, _ in INSTANCES for f in ORDER]
+ALL = (["widening_mul", "U_standard", "I_standard"] + [p + UNIFORM_FNS[f] for p, _, _ in INSTANCES for f in ORDER]
+       + ["U_try_fill", "I_try_fill", "U_try_fill_slice", "I_try_fill_slice"])
 
 
 def write(txt):
@@ -809,6 +936,7 @@ def main():
     for tgt in targets:                                  # `targets` is in dependency order (callees first)
         coq = tgt["coq"]
         out.append(stub(tgt, failed[coq]) if coq in failed else texts[coq])
+    out += fill_slice_wrappers(src, sigs, failed)
     out.append("End RandGen.")
     write("\n".join(out) + "\n")
     if failed:
